@@ -91,6 +91,7 @@ func runC11(c *Ctx) {
 	c.rule("D1", "deserialiseCommonError, evaluated as a decision list on the text of every kind (as is / blank-padded), returns that kind; kind texts contain no ':' or newline", 80)
 	c.rule("D2", "every kind is listed in IsCommonError and has its own case in the deserialiser", 54)
 	c.rule("D3", "Errorf: one %w, first, bound to the target kind after ConvertContextError (ErrUnknown when nil); WrapError: a cancellation/deadline cause replaces the target kind", 3)
+	c.rule("D17", "WrapError looks at the cause on every path: the test Any(ConvertContextError(original), ErrTimeout, ErrCancelled) dominates every construction of the result, whatever the target is", 1)
 	c.rule("D4", "converters normalise context errors first; a pass-through case for ErrTimeout/ErrCancelled precedes every re-classifying case", 5)
 	c.rule("D6", "deserialisation re-joins every element after the kind into the reason: loop from index 1, step one, unconditional append of the (trimmed) element", 1)
 	c.rule("D10", "WrapIfNotCommonError / WrapIfNotCommonErrorf: the branch that gives the result the kind of the cause is reached only where the target was found not to be a cancellation or a deadline", 2)
@@ -609,6 +610,34 @@ func (c *Ctx) c11Wrapping() {
 			}
 		}
 		c.check(good, "D3", fname(w), c.pos(w.Pos()), "context causes win over the target kind", why)
+		// D17: "a cause that is a cancellation or a deadline is never reclassified as anything else" — whatever the target is,
+		// the other contextual kind included (WrapError(ErrTimeout, context.Canceled) is a cancellation). The look at the cause
+		// is therefore made on every path: the test Any(normalised cause, ErrTimeout, ErrCancelled) dominates every
+		// construction of the result; guarded by a test of the target it is skipped for the targets that "already carry" a
+		// contextual kind, and a cancelled cause comes out as a timeout.
+		if conv != nil {
+			var test *ssa.Call
+			allInstrs(w, func(in ssa.Instruction) {
+				if cl, ok := in.(*ssa.Call); ok && calleeFull(&cl.Call) == modPath+"/commonerrors.Any" && len(cl.Call.Args) > 0 && cl.Call.Args[0] == ssa.Value(conv) {
+					test = cl
+				}
+			})
+			bad := ""
+			if test != nil {
+				allInstrs(w, func(in ssa.Instruction) {
+					cl, ok := in.(*ssa.Call)
+					if !ok {
+						return
+					}
+					cn := calleeFull(&cl.Call)
+					if (cn == modPath+"/commonerrors.New" || cn == modPath+"/commonerrors.Errorf") && !dominates(test, cl) {
+						bad = c.ipos(cl)
+					}
+				})
+			}
+			c.check(test != nil && bad == "", "D17", fname(w)+"/cause-looked-at-whatever-the-target", c.pos(w.Pos()), "the test of the cause precedes every construction of the result",
+				"the result built at "+bad+" can be reached without the cause having been tested for a cancellation / a deadline (the test is guarded by something else, the target's own kind for instance): WrapError(ErrTimeout, context.Canceled, …) comes out as a timeout — a cause that is a cancellation is reclassified, and the wrong kind survives serialisation")
+		}
 	}
 	// WrapIfNotCommonError(f): context check first, common errors kept
 	for _, name := range []string{"WrapIfNotCommonError", "WrapIfNotCommonErrorf"} {
